@@ -42,7 +42,9 @@ def determinism(ids, n):
                    for r in res]
             if base is None:
                 base = dig
-            diff = [a[0] for a, b in zip(base, dig) if a[1] != b[1]]
+            diff = [a[0] for a, b in zip(base, dig) if a[1] != b[1]
+                    and not str(a[1]).startswith('inconclusive')
+                    and not str(b[1]).startswith('inconclusive')]
             herr = [a[0] for a in dig if a[2]]
             status = 'ok' if not diff and not herr else 'MISMATCH'
             print(f'[selftest determinism] {pid} {name}: {len(dig)} runs, '
